@@ -7,7 +7,7 @@ from sfa.rules import recache
 
 LEVEL_TEXT = (
     'Static decision of structural clauses of C02. (a) Uniqueness cannot be bypassed: in Index.__init__ the AutoMap construction is the only non-donor source of the map, its ValueError handler leads to ErrorInitIndexNonUnique on every path, the no-map (loc_is_iloc) path is reachable only from IndexAutoFactory with PositionsAllocator labels or by propagation from a map-less donor, a donor map is shared only when both indices are static, and __contains__ consults the map or the 0..n-1 range. (b) Tree form: from_labels and _from_type_blocks share the non-sequential-predecessor test and raise ErrorInitIndex. (d) IndexGO.append / datetime append / IndexLevelGO mutators update their components in lock-step and validate before mutating. (c) Coherence after growth: every read of the lazily rebuilt '
-    'Index._labels/_positions and ArrayGO._array anywhere in core is dominated by the staleness guard '
+    'Index._labels/_positions, IndexHierarchy._blocks and ArrayGO._array anywhere in core is dominated by the staleness guard '
     '(forward must-dataflow over every path of every function, with ensures-fresh summaries and interprocedural '
     'requires-fresh propagation for private readers). A read without the guard serves the pre-growth arrays after an '
     'append, which breaks the label<->position bijection for that method on a grown index. Views: every view method of Index / IndexHierarchy (__len__, values, positions, __iter__, __reversed__, depth, shape, __contains__) presents the one backing label sequence (tree while stale, table when fresh). Key-steered descent: an IndexLevelGO mutator that steps into a fixed child (targets[-1]) checks that the matched key component sits at that position and raises otherwise, before mutating. Not decided: correctness '
@@ -22,6 +22,7 @@ CLAIM = dict(
 
 def run(ctx: Ctx) -> None:
     recache.check(ctx, 'Index', floor_reads=36)
+    recache.check(ctx, 'IndexHierarchy', floor_reads=38)
     recache.check(ctx, 'ArrayGO', floor_reads=5)
     indexrules.uniqueness(ctx)
     indexrules.tree_form(ctx)
